@@ -143,6 +143,22 @@ def _inlinable(fn: ast.FunctionDef) -> bool:
     return True
 
 
+class _Beta(ast.NodeTransformer):
+    """(lambda a, b: E)(x, y) with plain arguments is E with a, b replaced - what is left when a table of stages is unrolled"""
+
+    def visit_Call(self, n):
+        self.generic_visit(n)
+        f = n.func
+        if isinstance(f, ast.Lambda) and not n.keywords and len(n.args) == len(f.args.args) and not any(isinstance(a, ast.Starred) for a in n.args) \
+                and all(isinstance(a, (ast.Name, ast.Constant)) or (isinstance(a, ast.Attribute) and _chain(a)) for a in n.args):
+            return _Subst({p.arg: a for p, a in zip(f.args.args, n.args)}, {}).visit(copy.deepcopy(f.body))
+        return n
+
+
+def _beta(node):
+    return _Beta().visit(node)
+
+
 class _Subst(ast.NodeTransformer):
     def __init__(self, mapping: Dict[str, ast.expr], rename: Dict[str, str]):
         self.mapping, self.rename = mapping, rename
@@ -1471,12 +1487,23 @@ def unroll_literal_loops(trees: Dict[str, ast.Module], max_rows: int = 32) -> in
                         if isinstance(x, (ast.Break, ast.Continue, ast.FunctionDef, ast.Lambda)) or (isinstance(x, ast.Name) and x.id in names and isinstance(x.ctx, (ast.Store, ast.Del))):
                             ok = False
                             break
+                def row_elt(e):
+                    """what a row may hold: a plain value, a range over plain arithmetic, or a lambda (a stage of a table of stages)"""
+                    if simple(e):
+                        return True
+                    if isinstance(e, ast.Lambda):
+                        a_ = e.args
+                        return not (a_.defaults or a_.kw_defaults or a_.vararg or a_.kwarg or a_.kwonlyargs or a_.posonlyargs) and not any(isinstance(x, (ast.Lambda, ast.NamedExpr, ast.Yield)) for x in ast.walk(e.body))
+                    if isinstance(e, ast.Call) and isinstance(e.func, ast.Name) and e.func.id == "range" and not e.keywords:
+                        return all(isinstance(x, (ast.Name, ast.Constant, ast.BinOp, ast.UnaryOp, ast.operator, ast.unaryop, ast.expr_context)) for a_ in e.args for x in ast.walk(a_))
+                    return False
+
                 if ok:
                     for r in rows:
                         if isinstance(tg, ast.Name):
                             ok = ok and simple(r)
                         else:
-                            ok = ok and isinstance(r, (ast.Tuple, ast.List)) and len(r.elts) == len(names) and all(simple(e) for e in r.elts)
+                            ok = ok and isinstance(r, (ast.Tuple, ast.List)) and len(r.elts) == len(names) and all(row_elt(e) for e in r.elts)
                 if not ok:
                     out.append(s)
                     continue
@@ -1484,7 +1511,7 @@ def unroll_literal_loops(trees: Dict[str, ast.Module], max_rows: int = 32) -> in
                 for r in rows:
                     mp = {names[0]: r} if isinstance(tg, ast.Name) else dict(zip(names, r.elts))
                     sub = _Subst(mp, {})
-                    new.extend(sub.visit(copy.deepcopy(b_)) for b_ in s.body)
+                    new.extend(_beta(sub.visit(copy.deepcopy(b_))) for b_ in s.body)
                 _relocate(new, s)
                 for x in new:
                     ast.fix_missing_locations(x)
@@ -1606,13 +1633,28 @@ def unroll_literal_loops(trees: Dict[str, ast.Module], max_rows: int = 32) -> in
                     nm = b_.targets[0].id
                     if stores.get(nm, 0) != 1 or nm in mutated or nm in tabs or nm == "__until__":
                         continue
-                    used = {z.id for z in ast.walk(b_.value) if isinstance(z, ast.Name)}
+                    lam_params = {a_.arg for z in ast.walk(b_.value) if isinstance(z, ast.Lambda) for a_ in z.args.args}
+                    used = {z.id for z in ast.walk(b_.value) if isinstance(z, ast.Name)} - lam_params
                     used_attr = {_chain_text(z) for z in ast.walk(b_.value) if isinstance(z, ast.Attribute)}
                     if not (used & all_stores) and not (used_attr & all_attr):
                         tabs[nm] = b_.value
+                    elif not (used_attr & all_attr) and not any(isinstance(p_, (ast.For, ast.While)) and any(b_ is y for y in ast.walk(p_)) for p_ in ast.walk(x)) \
+                            and all(getattr(z, "lineno", 10 ** 9) < b_.lineno for z in ast.walk(x) if isinstance(z, ast.Name) and isinstance(z.ctx, (ast.Store, ast.Del)) and z.id in used):
+                        tabs[nm] = b_.value  # what the rows name is settled before the table is written (and the table is not in a loop)
                 loc["__tables__"] = tabs
+                before_ = done
                 x.body = rewrite(x.body, loc)
                 x.body = comprehensions(x, loc)
+                if done != before_:
+                    # a local table whose every use was unrolled is dead; writing it has no effect (its rows are names, constants,
+                    # ranges and lambdas), and its lambdas would otherwise be read as code that still runs
+                    loads_ = {y.id for y in ast.walk(x) if isinstance(y, ast.Name) and isinstance(y.ctx, ast.Load)}
+                    dead_ = {id(b_) for b_ in ast.walk(x) if isinstance(b_, ast.Assign) and len(b_.targets) == 1 and isinstance(b_.targets[0], ast.Name)
+                             and b_.targets[0].id in tabs and tabs[b_.targets[0].id] is b_.value and b_.targets[0].id not in loads_
+                             and not any(isinstance(z, ast.Call) and not (isinstance(z.func, ast.Name) and z.func.id == "range") for z in ast.walk(b_.value) if not isinstance(z, ast.Lambda)
+                                         and not any(z is w for lam in ast.walk(b_.value) if isinstance(lam, ast.Lambda) for w in ast.walk(lam.body)))}
+                    if dead_:
+                        _drop_stmts(x, dead_)
     for mod in touched:
         renumber(trees[mod])
     return done
